@@ -117,6 +117,15 @@ def read_object(mo):
         out['lines'] = {'ok': buf.getvalue()}
     except Exception as e:  # noqa: BLE001
         out['lines'] = {'crash': impl.err_name(e).replace('crash:', '')}
+    # a host without a standard output (sys.stdout is None: pythonw, embedded interpreters): print() is a no-op there
+    # and inspect() must be one too
+    if 'ok' in out['lines']:
+        try:
+            with contextlib.redirect_stdout(None), warnings.catch_warnings():
+                warnings.simplefilter('ignore')
+                mo.inspect()
+        except Exception as e:  # noqa: BLE001
+            out['lines'] = {'crash': 'without stdout: ' + impl.err_name(e).replace('crash:', '')}
     return out
 
 
@@ -168,8 +177,8 @@ def messages(tier, seed):
     # every class once more with IDs that contain commas, dots, blanks, quotes (the short-ID idiom of __repr__ must not
     # leak into what a message exposes or prints)
     ids = ['OM_4.15529413,4.15529413.1', 'OM_4.15529413,4.15529413.2', 'a,b,c', "O'NEILL, x", ' padded ', 'x,']
-    ids[2] = 'ENPS;P_NEWSROOM\\W\\F_RUNDOWNS\\R_2021-03-04 0600 BULLETIN;' + 'A1B2C3D4-' * 6 + 'long'      # longer than a terminal line
-    ids[3] = 'ENPS;P_NEWSROOM\\W\\F_RUNDOWNS\\R_2021-03-04 0600 BULLETIN;' + 'A1B2C3D4-' * 6 + 'long2'
+    ids[2] = 'ENPS;P_NEWSROOM\\W\\F_RUNDOWNS\\R_2021-03-04 0600 BULLETIN;' + 'A1B2C3D4-' * 12 + 'long'      # longer than a terminal line and than any 128-character field limit
+    ids[3] = 'ENPS;P_NEWSROOM\\W\\F_RUNDOWNS\\R_2021-03-04 0600 BULLETIN;' + 'A1B2C3D4-' * 12 + 'long2'
     A, Bb, C, Dd = ids[2], ids[3], ids[0], ids[1]
     sp_ro = TJ.to_text(B.ro_doc([B.story(A, [B.item(A), B.item(Bb), B.item(C)]), B.story(Bb, [B.item(A)]), B.story(C, []), B.story(Dd, [])]))
     sp = [('StorySend', B.story_send(A, [B.p('x')])), ('StoryAppend', B.story_append([B.story(ids[4], []), B.story(ids[5], [])])),
